@@ -68,7 +68,7 @@ type c03Base struct {
 }
 
 func c03Parse(r *core.Run, worker int, p adapt.Parser, x []byte) (res adapt.Parsed, ok bool) {
-	r.Begin(worker, func() string { return p.Name + " " + core.Hex(x) })
+	r.Begin(worker, func() string { return p.Name + " " + core.HexFull(x) })
 	panicked, _ := core.Guard(func() { res = p.Fn(x) })
 	r.End(worker)
 	r.Evaluations.Add(1)
